@@ -352,7 +352,7 @@ func DriverMain(prop string, args []string) int {
 			var dfails []FailRow
 			var clen2 []ClenEnt
 			var derrs []string
-			double, dfails, clen2, derrs = h.DoubleTerm(d, ex.Double)
+			double, dfails, clen2, derrs = h.DoubleTerm(d, ex.Double, prop)
 			d.Clen = append(d.Clen, clen2...)
 			l.Fails = append(l.Fails, dfails...)
 			if len(derrs) > 0 {
